@@ -184,27 +184,74 @@ func rewriteForalls(f string, pol int, pick func(v, sort string) (string, bool))
 	return f, false
 }
 
+type quantReg struct {
+	f    string
+	nvar int // number of positive foralls (nesting or siblings)
+	done map[string]bool
+}
+
+func countPosForalls(f string) int {
+	n := 0
+	rewriteForalls(f, 1, func(v, srt string) (string, bool) { n++; return v, true })
+	return n
+}
+
 // registerQuant records an asserted formula with positive foralls and instantiates it.
+// One quantified variable: every index term. Several (nested) variables: tuples of skolem
+// constants of the goals (and their images under the permutations of sort.Sort) only.
 func (s *Script) registerQuant(f string) {
 	if !strings.Contains(f, "(forall ((q.") {
 		return
 	}
-	s.quants = append(s.quants, f)
-	for _, it := range s.idxTerms {
-		s.emitInstance(f, it)
+	n := countPosForalls(f)
+	if n == 0 {
+		return
+	}
+	q := &quantReg{f: f, nvar: n, done: map[string]bool{}}
+	s.quants = append(s.quants, q)
+	if n == 1 {
+		for _, it := range s.idxTerms {
+			s.emitInstance(q, []idxTerm{it})
+		}
 	}
 }
 
-func (s *Script) emitInstance(f string, it idxTerm) {
-	g, ok := rewriteForalls(f, 1, func(v, srt string) (string, bool) {
+func (s *Script) emitInstance(q *quantReg, tup []idxTerm) {
+	if g, ok := s.instanceOf(q, tup, true); ok {
+		s.emit("(assert " + g + ")")
+	}
+}
+
+// instanceOf builds the instance of q at the tuple; dedup marks it as produced for the shared script.
+func (s *Script) instanceOf(q *quantReg, tup []idxTerm, dedup bool) (string, bool) {
+	key := ""
+	for _, t := range tup {
+		key += t.sort + "|" + t.term + ";"
+	}
+	if q.done[key] {
+		return "", false
+	}
+	if dedup {
+		q.done[key] = true
+	}
+	i := 0
+	bad := false
+	g, ok := rewriteForalls(q.f, 1, func(v, srt string) (string, bool) {
+		if i >= len(tup) {
+			return "", false
+		}
+		it := tup[i]
+		i++
 		if srt != it.sort {
+			bad = true
 			return "", false
 		}
 		return it.term, true
 	})
-	if ok {
-		s.emit("(assert " + g + ")")
+	if ok && !bad && (len(tup) == 1 || !strings.Contains(g, "(forall ((q.")) {
+		return g, true
 	}
+	return "", false
 }
 
 // noteIdx registers a term of an index sort; quantified assumptions are instantiated at it.
@@ -224,29 +271,70 @@ func (s *Script) noteIdxF(term, sort string, force bool) {
 	s.idxSeen[key] = true
 	it := idxTerm{term, sort}
 	s.idxTerms = append(s.idxTerms, it)
-	for _, f := range s.quants {
-		s.emitInstance(f, it)
+	for _, q := range s.quants {
+		if q.nvar == 1 {
+			s.emitInstance(q, []idxTerm{it})
+		}
 	}
 }
 
-// skolemize replaces positive foralls of a goal by their bodies at fresh constants.
-func (s *Script) skolemize(goal string) string {
+// skolemize replaces positive foralls of a goal by their bodies at fresh constants. The
+// declarations of the constants and the instances of the quantified assumptions at them (single
+// variable: each constant and its images under sort permutations; several variables: tuples of
+// them) are returned as lines local to the obligation.
+func (s *Script) skolemize(goal string) (string, []string) {
 	if s.noInst || !strings.Contains(goal, "(forall ((q.") {
-		return goal
+		return goal, nil
 	}
 	var sks []idxTerm
+	var extra []string
 	g, ok := rewriteForalls(goal, 1, func(v, srt string) (string, bool) {
 		s.n++
 		name := fmt.Sprintf("sk.%s!%d", strings.TrimPrefix(v, "q."), s.n)
-		s.emit(fmt.Sprintf("(declare-const %s %s)", name, srt))
+		extra = append(extra, fmt.Sprintf("(declare-const %s %s)", name, srt))
 		sks = append(sks, idxTerm{name, srt})
 		return name, true
 	})
 	if !ok {
-		return goal
+		return goal, nil
 	}
+	terms := append([]idxTerm(nil), sks...)
 	for _, it := range sks {
-		s.noteIdxF(it.term, it.sort, true)
+		if it.sort != s.idx() {
+			continue
+		}
+		for _, pf := range s.permFuns {
+			if len(terms) < 12 {
+				terms = append(terms, idxTerm{fmt.Sprintf("(%s %s)", pf, it.term), it.sort})
+			}
+		}
 	}
-	return g
+	seen := map[string]bool{}
+	add := func(q *quantReg, tup []idxTerm) {
+		if inst, ok := s.instanceOf(q, tup, false); ok && !seen[inst] {
+			seen[inst] = true
+			extra = append(extra, "(assert "+inst+")")
+		}
+	}
+	for _, q := range s.quants {
+		switch {
+		case q.nvar == 1:
+			for _, t := range terms {
+				add(q, []idxTerm{t})
+			}
+		case q.nvar <= 3:
+			var rec func(cur []idxTerm)
+			rec = func(cur []idxTerm) {
+				if len(cur) == q.nvar {
+					add(q, append([]idxTerm(nil), cur...))
+					return
+				}
+				for _, t := range terms {
+					rec(append(cur, t))
+				}
+			}
+			rec(nil)
+		}
+	}
+	return g, extra
 }
